@@ -64,6 +64,19 @@ CLAIMED = {
    text="Every plan is executed in three fresh interpreters: twins with the same plan but different PYTHONHASHSEED, global numpy/random state and (simulated) wall clock must produce bit-identical event logs (actions received by the environment, logged statistics without time fields, MemoryLogger series, stored buffer rows, returned counters, hashes of all returned modules and optimisers); a third run with another seed must differ.",
    note="XLA thread configuration and platform are held fixed (same machine). One plan per routine and configuration; seeds are sampled.",
    technique="deterministic simulation twin runs under perturbation of hash seed, global RNG state and clock"),
+
+ "C03": dict(level="fault_enumeration", engine="TrainSim twin runs", design="§4 C03",
+   text="NARROW SLICE decided by fault injection inside simulated training: (a) overwriting the successor observation of every stored terminated transition with another finite stored observation must leave the complete training trace (all logged losses, all actions, final hashes of all modules and optimisers) bit-identical for DQN, Nature-DQN, DDQN, PER-DDQN, DDPG, TD3, TD3+LAP, SAC; (b) permuting the rows of one returned batch must leave that update's logged loss and q mean unchanged to 1e-5 for the losses whose target is a function of the row alone; a control fault on non-terminated rows must change the trace.",
+   note="NOT decided: equality of loss values/auxiliaries with the documented regression, choice of bootstrap, zero gradient into targets, batch size 1, representation-loss values (pure per-call clauses). TD7/MR.Q excluded (their representation losses legitimately read the successor).",
+   technique="deterministic simulation twin runs with storage-corruption and batch-reordering faults in the replay-buffer seam"),
+ "C07": dict(level="fault_enumeration", engine="TrainSim twin runs", design="§4 C07",
+   text="NARROW SLICE decided by fault injection inside simulated MR.Q training: rewriting, in the batch returned by one sample_batch call, every field after the first terminated step of each sampled sub-trajectory (rewards, actions, observations, successors, later flags) must leave the complete training trace (critic target/loss, encoder / dynamics / reward / done losses, priorities through later sampling, final hashes) bit-identical to the clean twin.",
+   note="NOT decided: GAE / reward-to-go / n-step recurrences against float64 references and independence between parallel environments in A2C/PPO (pure per-call clauses).",
+   technique="deterministic simulation twin runs with post-terminal data corruption in the replay-buffer seam"),
+ "C16": dict(level="exploration", engine="OptimSim", design="§4 C16",
+   text="CMA-ES driven through its public ask/tell functions in train_cmaes order under scripted fitness feedback (ties, huge, constant, adjacent floats; +-inf/NaN as faults), dimensions 1-8, populations, active/default updates, against invariants and float64 recomputation (weights, incumbent, weighted mean of the mu best with tie enumeration, step-size growth bound, covariance symmetry/positive diagonal, flat-parameter round trip); train_cmaes on a scripted environment; CEM primitives and optimize_cem with recording fitness under adversarial bounds/means/variances.",
+   note="Covariance positive-definiteness is not demanded (only symmetric, positive diagonal, finite, as the property says). Mean-in-box tolerance 4 float32 ulps (rounding of a convex combination). optimize_cem(return_history=True) with zero iterations raises; outside the property, not generated.",
+   technique="deterministic simulation: scripted fitness feedback histories (incl. non-finite faults) vs invariants and recomputed reference"),
 }
 NA = {
  "C12": "pure value/gradient identities of single loss calls; no schedule, clock, fault or retained state for a simulator to control",
@@ -100,6 +113,7 @@ man = {
    {"name": "TrainSim", "path": "rlsim/trainsim.py", "serves_properties": ["C01", "C03", "C05", "C06", "C07", "C09", "C10", "C11", "C13", "C15"], "kind_free_text": "complete training routines against a scripted environment (SimEnv), recording sampler, module probes, snapshot monitors"},
    {"name": "CheckpointSim", "path": "rlsim/ckptsim.py", "serves_properties": ["C15"], "kind_free_text": "TD7 assessment state machine under scripted episode outcomes"},
    {"name": "LoggerSim", "path": "rlsim/loggersim.py", "serves_properties": ["C20"], "kind_free_text": "loggers and checkpointers under planned call histories and a simulated clock"},
+   {"name": "OptimSim", "path": "rlsim/optimsim.py", "serves_properties": ["C16"], "kind_free_text": "CMA-ES ask/tell and CEM under scripted fitness feedback"},
    {"name": "TabularSim", "path": "rlsim/tabsim.py", "serves_properties": ["C13", "C14", "C11"], "kind_free_text": "tabular learners against a scripted discrete environment with a float64 reference learner"},
  ],
  "checks": checks,
